@@ -187,6 +187,9 @@ def run_requests(kind, retries, keep_alive, scripts, timeout=0.01):
 def replay_exit(kind, retries, keep_alive, check):
     """canned fault scripts exercising the exits of send_request / execute"""
     retries = max(0, min(int(retries), 3))
+    budget = "retry_budget_restored" in check       # the clause carries the tags of every property that relies on it
+    if budget:
+        retries = max(retries, 2)                   # histories such as 'silent, then rejected' need a retry to exist
     scripts = [["silent"] * (retries + 1), ["answer"]], [["reject"], ["silent"] * (retries + 1)], \
         [["silent", "reject"], ["silent"] * (retries + 1)], [["error"], ["answer"]], [["answer"], ["answer"]], \
         [["senderror"], ["answer"]]
@@ -196,7 +199,7 @@ def replay_exit(kind, retries, keep_alive, check):
         r = run_requests(kind, retries, bool(keep_alive), sc)
         out["runs"].append({"script": sc, "result": r})
         for i, req in enumerate(r["requests"]):
-            if check.startswith("C05_retry_budget_restored"):
+            if budget:
                 bad |= req["retry_after"] != 0
             elif check.startswith("C04_"):
                 bad |= req["transmissions"] > retries + 1
